@@ -137,6 +137,9 @@ class GroupAdditivityScheme(Scheme):
                 bond.SetBondType(Chem.BondType.ZERO)
         # aromatize C6 ring for benson
         _aromatization_Benson(mol)
+        if os.environ.get('PGRADD_VERIF'):
+            # verification hook H1: the annotated private copy of the molecule
+            self._verif_last_mol = mol
         # assign groups
         self._AssignCenterPattern(mol, debug)
         groups = self._AssignGroup(mol)
